@@ -153,6 +153,147 @@ def run_script_case(ctx, objdir, case, variants):
     return res
 
 
+# ------------------------------------------------------------------ replay-time filter options x UFTRACE_FUNCS
+def used_names(case):
+    ks = sorted({r[3] for t in case["tasks"] for r in t["recs"]})
+    return [case["names"][k] for k in ks]
+
+
+def gen_opts(rng, case):
+    """a replay-time filter option set: -D / -F / -N (modelled by C18.Filter) or -t (property check only)"""
+    used = used_names(case) or case["names"][:1]
+    kind = rng.choice(["D", "D", "F", "F", "N", "DF", "FN", "DN", "t"])
+    o = {"depth": None, "F": [], "N": [], "t": None}
+    if "D" in kind:
+        o["depth"] = rng.choice([1, 1, 2, 2, 3, 4])
+    if "F" in kind:
+        o["F"] = rng.sample(used, min(len(used), rng.choice([1, 1, 2])))
+    if "N" in kind:
+        rest = [n for n in used if n not in o["F"]] or [n for n in case["names"] if n not in o["F"]]
+        if rest:
+            o["N"] = [rng.choice(rest)]
+    if kind == "t":
+        o["t"] = rng.choice([1, 2, 3, 10, 100])
+    return o
+
+
+def opts_args(o):
+    a = []
+    if o["depth"] is not None:
+        a += ["-D", str(o["depth"])]
+    for n in o["F"]:
+        a += ["-F", n]
+    for n in o["N"]:
+        a += ["-N", n]
+    if o["t"] is not None:
+        a += ["-t", "%dns" % o["t"]]
+    return a
+
+
+def gen_funcs_for_opts(rng, case, o):
+    """a UFTRACE_FUNCS list that leaves some of the functions the options care about UNLISTED (their
+    exits must still undo the filter state) while listing functions that are called later"""
+    used = used_names(case) or case["names"][:1]
+    k = rng.randrange(1, max(2, len(used)))
+    pick = rng.sample(used, min(k, len(used)))
+    if o["F"] and rng.random() < 0.7:
+        pick = [n for n in pick if n not in o["F"]] or pick       # the -F function itself unlisted
+    if rng.random() < 0.2:
+        pick.append("nosuchfunction")
+    return pick
+
+
+def run_opts_case(ctx, objdir, case, variants):
+    """variants: list of (lang, opts, funcs, sel); returns (variant, callbacks, replay lines with the same options)"""
+    d = os.path.join(ctx.scratch, "data")
+    c06.write_dir(case, d)
+    name_map = {n: i + 1 for i, n in enumerate(case["names"])}
+    tid_map = {t["tid"]: i for i, t in enumerate(case["tasks"])}
+    addr_map = {c06.BASE + sy[0]: i + 1 for i, sy in enumerate(c06.sym_table(case))}
+    res = []
+    for lang, o, funcs, sel in variants:
+        script = os.path.join(ctx.scratch, "logo.%s" % ("py" if lang == "py" else "lua"))
+        write_script(script, lang, funcs)
+        extra = opts_args(o)
+        if sel is not None:
+            extra.append("--tid=" + ",".join(str(case["tasks"][i]["tid"]) for i in sel))
+        rc, out, err = datadir.uftrace(objdir, "script", d, ["-S", script] + extra, timeout=60)
+        if rc != 0:
+            ctx.violation("uftrace script %s failed (rc=%d): %s" % (" ".join(extra), rc, (out + err)[-300:]),
+                          {"case": case, "lang": lang, "opts": o, "funcs": funcs, "sel": sel}, True)
+            continue
+        cbs = parse_callbacks(out, lambda t: tid_map.get(t, 999), lambda n: name_map.get(n, 88888),
+                              lambda a: addr_map.get(a, 99999))
+        v = {"fold": False, "sel": None, "fields": ["duration", "tid", "addr", "time"], "column": None, "newline": False}
+        rc2, out2, err2 = datadir.uftrace(objdir, "replay", d, ["--no-merge", "-f", "duration,tid,addr,time"] + extra, timeout=60)
+        lines = c06.parse_output(out2, v, case)[0] if rc2 == 0 else [c06.BAD]
+        res.append(((lang, o, funcs, sel), cbs, lines))
+    return res
+
+
+def coq_fopts(o, names):
+    return "(mkfopts %d [%s] [%s])" % (o["depth"] if o["depth"] is not None else 1024,
+                                       "; ".join(str(names[n]) for n in o["F"]), "; ".join(str(names[n]) for n in o["N"]))
+
+
+def evaluate_opts(ctx, items, name):
+    defs = []
+    for ci, (case, obs) in enumerate(items):
+        names = {n: i + 1 for i, n in enumerate(case["names"])}
+        vs = []
+        for (lang, o, funcs, sel), cbs, lines in obs:
+            fl = [] if funcs is None else [names[f] for f in funcs if f in names] or [77777]
+            vs.append("(%s, [%s], %s, %s, [%s], [%s])" % (
+                coq_fopts(o, names), "; ".join(map(str, fl)),
+                "None" if sel is None else "(Some [%s])" % "; ".join("%d%%nat" % i for i in sel),
+                coq.coq_bool(o["t"] is None),
+                "; ".join(coq_cb(c) for c in cbs), "; ".join(c06.coq_line(l) for l in lines)))
+        defs.append("Definition c%d : ocase := ([%s], [%s], [%s])." % (
+            ci, "; ".join(str(k + 1) for k in case["forks"]), ";\n ".join(c06.coq_task(t) for t in case["tasks"]),
+            ";\n ".join(vs)))
+    defs.append("Definition cases : list ocase := [%s]." % "; ".join("c%d" % i for i in range(len(items))))
+    res = coq.run_cases(ctx, name, PRE + "Require Import UV.C18.Filter.\n", "\n".join(defs), [
+        ("mismatch", "bad_indices (fun b : bool => b) (flat_map agree_ocase cases) 0"),
+        ("violations", "bad_indices (fun b : bool => b) (flat_map check_ocase cases) 0"),
+    ])
+    if res is None:
+        return None
+    return {k: coq.parse_nat_list(v) for k, v in res.items()}
+
+
+def verdict_opts(ctx, items, res):
+    if res is None:
+        return
+    flat = [(ci, vi) for ci, (case, obs) in enumerate(items) for vi in range(len(obs))]
+    for k in res["violations"][:3]:
+        ci, vi = flat[k]
+        case, obs = items[ci]
+        (lang, o, funcs, sel), cbs, lines = obs[vi]
+        ctx.violation("C18 violated: with the options `%s` the callbacks of a %s script (UFTRACE_FUNCS=%s) are not the listed "
+                      "functions' sub-sequence of what `uftrace replay` shows with the same options"
+                      % (" ".join(opts_args(o)), lang, funcs),
+                      {"case": case, "lang": lang, "opts": o, "funcs": funcs, "sel": sel, "callbacks": cbs[:200]}, True)
+    if res["mismatch"] and not res["violations"]:
+        ci, vi = flat[res["mismatch"][0]]
+        case, obs = items[ci]
+        (lang, o, funcs, sel), cbs, lines = obs[vi]
+        ctx.violation("filter model (C18.Filter) and implementation disagree on %d (case, options) pairs; the property checker "
+                      "accepts every explored output" % len(res["mismatch"]),
+                      {"correspondence": "C18.Filter.script_opts / replay_opts vs uftrace script / replay with %s" % " ".join(opts_args(o)),
+                       "case": case, "lang": lang, "opts": o, "funcs": funcs, "sel": sel, "callbacks": cbs[:200]}, False)
+    ctx.extra["disagreements_checked"] = ctx.extra.get("disagreements_checked", 0) + len(res["mismatch"])
+
+
+def leak_shape_case():
+    """the shape of the seeded regression, written out: unlisted functions return before listed ones"""
+    E, X = c06.E, c06.X
+    return {"names": ["main", "helper", "leaf", "target", "sub"], "forks": [], "max_stack": 1024, "illformed": False, "tasks": [
+        {"tid": 11, "parent": None, "recs": [
+            [1000, E, 0, 0], [1010, E, 1, 1], [1020, E, 2, 2], [1030, X, 2, 2], [1040, X, 1, 1],
+            [1050, E, 1, 1], [1060, X, 1, 1], [1070, E, 1, 3], [1080, E, 2, 4], [1090, X, 2, 4], [1100, X, 1, 3],
+            [1110, E, 1, 2], [1120, X, 1, 2], [1130, X, 0, 0]]}]}
+
+
 def evaluate(ctx, items, name):
     defs = []
     for ci, (case, obs) in enumerate(items):
@@ -333,7 +474,8 @@ def common_meta(ctx):
         "the logging scripts (Python/Lua) of props/c18.py, their line parser, vf/datadir.py, the replay parser of props/c06.py",
     ]
     ctx.assume = [
-        "as C06: ENTRY/EXIT user records only, depth < max_stack <= 1024, no filter options, fork/vfork/daemon fix-ups only",
+        "as C06: ENTRY/EXIT user records only, depth < max_stack <= 1024, fork/vfork/daemon fix-ups only; replay-time options: "
+        "--tid, -D, -F, -N are modelled (plain names, no symbol in both -F and -N), -t is compared with replay only",
         "UFTRACE_FUNCS entries are plain names (no regex/glob characters): exact match",
         "arguments / return values (covered by C09's views) are not part of the compared context",
         "record time: no model of libmcount's hooks - pairing per thread and agreement with replay are checked on real runs only",
@@ -379,6 +521,34 @@ def run(ctx):
     for s in range(0, len(items), chunk):
         part = items[s:s + chunk]
         verdict(ctx, part, evaluate(ctx, part, "scases%d" % (s // chunk)))
+    # UFTRACE_FUNCS combined with replay-time filter options
+    oitems = []
+    lk = leak_shape_case()
+    fixed = [("py", {"depth": 2, "F": [], "N": [], "t": None}, ["target", "sub"], None),
+             ("py", {"depth": None, "F": ["helper"], "N": [], "t": None}, ["leaf"], None),
+             ("lua", {"depth": 1, "F": ["helper"], "N": [], "t": None}, ["leaf", "sub"], None),
+             ("py", {"depth": None, "F": [], "N": ["helper"], "t": None}, ["leaf", "target"], None),
+             ("py", {"depth": 2, "F": [], "N": [], "t": None}, None, None)]
+    oitems.append((lk, run_opts_case(ctx, objdir, lk, fixed)))
+    for case in cases[:ctx.n(45, 400)]:
+        if not any(t["recs"] for t in case["tasks"]):
+            continue
+        variants = []
+        for j in range(ctx.n(3, 5)):
+            o = gen_opts(rng, case)
+            lang = "lua" if (j == 2 and not case["illformed"]) else "py"
+            sel = closed_sel(rng, case) if rng.random() < 0.2 else None
+            variants.append((lang, o, gen_funcs_for_opts(rng, case, o), sel))
+        oitems.append((case, run_opts_case(ctx, objdir, case, variants)))
+    for case, obs in oitems:
+        for (lang, o, funcs, sel), cbs, lines in obs:
+            ctx.case(key=(repr([(t["parent"], t["recs"]) for t in case["tasks"]]), lang, repr(o), repr(funcs), repr(sel)),
+                     nontrivial=True,
+                     tags=["opts:" + ("".join(a for a in opts_args(o) if a.startswith("-")) or "none"), "UFTRACE_FUNCS+options", "lang=" + lang],
+                     size=sum(len(t["recs"]) for t in case["tasks"]))
+    for s in range(0, len(oitems), chunk):
+        part = oitems[s:s + chunk]
+        verdict_opts(ctx, part, evaluate_opts(ctx, part, "ocases%d" % (s // chunk)))
     record_time(ctx, objdir)
 
 
@@ -391,6 +561,13 @@ def replay(ctx, obj):
             record_time(ctx, objdir)
         else:
             ctx.log("replay file has no case; nothing to re-execute")
+        return
+    if obj.get("opts"):
+        obs = run_opts_case(ctx, objdir, case, [(obj.get("lang", "py"), obj["opts"], obj.get("funcs"), obj.get("sel"))])
+        for (lang, o, funcs, sel), cbs, lines in obs:
+            ctx.log("replayed %s script with %s: %d callbacks, %d replay lines" % (lang, " ".join(opts_args(o)), len(cbs), len(lines)))
+            ctx.case(key=("replay", lang, repr(o), repr(funcs)), sample={"callbacks": [list(c) for c in cbs][:40]})
+        verdict_opts(ctx, [(case, obs)], evaluate_opts(ctx, [(case, obs)], "replay"))
         return
     variants = [(obj.get("lang", "py"), obj.get("funcs"), obj.get("sel"))]
     obs = run_script_case(ctx, objdir, case, variants)
